@@ -14,7 +14,8 @@ code panics and the model says so).
 PARTIAL (see `lib/propmeta.py`): the closed forms are over ℝ; the f32 VALUE of the sums and
 quotients is covered by the correspondence check only (dyadic inputs, identical operation order).
 Definedness, sign, range and argument-order symmetry are proved a second time for EVERY
-correctly-rounding arithmetic (`C05_*_rounded`).
+correctly-rounding arithmetic (`C05_*_rounded`).  Non-finite scores: `C05_fmax_nan`,
+`C05_symm_any_arith`, `C05_cached_transparent_any_arith` (every numeric instance, NaN included).
 -/
 namespace Hpo.C05
 open Hpo Hpo.Matrix Hpo.Combine Hpo.NumReal
@@ -330,6 +331,78 @@ example : ∃ sim : ℕ → ℕ → RVal Rounding.exact, (∀ x y, sim x y = sim
   · intro h
     have := congrArg RVal.v h
     norm_num at this
+
+/-! ## non-finite scores: arithmetics WITH NaN values
+
+`f32::max` ignores a NaN operand, the row / column maxima (`if a > b { a } else { b }`) do not: there
+a NaN element wins or loses depending on its POSITION.  The model mirrors both (`fmax` tests
+`Num.isNaN`, `maxGo` only compares).  The two clauses of the property that do not depend on the
+values hold for every numeric instance, NaN or not: -/
+
+/-- `fmax` is `f32::max`: a NaN operand is ignored; without NaN operands it is the comparison -/
+theorem C05_fmax_nan {F : Type} [Num F] (a b : F) :
+    (Num.isNaN a = true → fmax a b = b) ∧
+    (Num.isNaN a = false → Num.isNaN b = true → fmax a b = a) ∧
+    (Num.isNaN a = false → Num.isNaN b = false → fmax a b = if Num.lt a b then b else a) := by
+  refine ⟨?_, ?_, ?_⟩ <;> intros <;> simp_all [fmax]
+
+/-- **argument order with NaN entries**: for EVERY numeric instance whose `+` and `f32::max` are
+commutative (IEEE-754 `+` and `f32::max` are, up to the sign / payload of a NaN result and the sign
+of a zero `max(+0, -0)`), a symmetric table gives the same result for `(A, B)` and `(B, A)`.  No
+order law is assumed: the matrix of `(B, A)` is the transpose, so every row of the one is a column of
+the other WITH THE SAME ELEMENT ORDER, and the position-dependent maxima are taken over identical
+lists. -/
+theorem C05_symm_any_arith {F : Type} [Num F] (hadd : ∀ a b : F, Num.add a b = Num.add b a)
+    (hmax : ∀ a b : F, fmax a b = fmax b a) (cb : Combiner) (sim : ℕ → ℕ → F)
+    (hs : ∀ x y, sim x y = sim y x) (A B : List ℕ) :
+    groupSimilarity cb sim A B = groupSimilarity cb sim B A :=
+  groupSimilarity_symm_g hadd hmax cb sim hs A B
+
+/-- **the caching adaptor with NaN entries**: transparent for every numeric instance (it stores and
+returns values, `Float32` with its NaNs included: a cached NaN is returned, not recomputed) -/
+theorem C05_cached_transparent_any_arith {F : Type} [Num F] (cb : Combiner) (sim : ℕ → ℕ → F)
+    (qs : List (List ℕ × List ℕ)) : runCached cb sim qs [] = runPlain cb sim qs :=
+  runCached_eq_g cb sim qs [] (memoOK_nil sim)
+
+/-- non-vacuity of `C05_symm_any_arith` on an instance with a NaN, and the position dependence of
+the maxima: with `sim 2 7 = NaN`, `sim 2 8 = 1/4` the row `[NaN, 1/4]` has maximum `1/4` (the
+reversed row would have NaN), the column sums are NaN, and `funSimMax` is `1/4` in both orders
+(the same ids and values as `setsim 0 j0 funsimmax 2 7,8` of the correspondence check) -/
+example :
+    (∀ a b : Option ℚ, @Num.add _ nanNum a b = @Num.add _ nanNum b a) ∧
+    (∀ a b : Option ℚ, @fmax _ nanNum a b = @fmax _ nanNum b a) ∧
+    @maxGo _ nanNum none [some (1 / 4)] = some (1 / 4) ∧
+    @maxGo _ nanNum (some (1 / 4)) [none] = none ∧
+    @groupSimilarity _ nanNum .funSimMax
+      (fun a b => if a + b = 9 then none else some (1 / 4)) [2] [7, 8] = .ok (some (some (1 / 4))) ∧
+    @groupSimilarity _ nanNum .funSimMax
+      (fun a b => if a + b = 9 then none else some (1 / 4)) [7, 8] [2] = .ok (some (some (1 / 4))) := by
+  have hadd : ∀ a b : Option ℚ, @Num.add _ nanNum a b = @Num.add _ nanNum b a := by
+    intro a b
+    cases a <;> cases b <;> simp [nanNum_add, add_comm]
+  have hmax : ∀ a b : Option ℚ, @fmax _ nanNum a b = @fmax _ nanNum b a := by
+    intro a b
+    cases a with
+    | none => cases b <;> simp [fmax, nanNum_isNaN]
+    | some x =>
+      cases b with
+      | none => simp [fmax, nanNum_isNaN]
+      | some y =>
+        simp only [fmax, nanNum_isNaN, nanNum_lt_some, Option.isNone_some, Bool.false_eq_true,
+          if_false, decide_eq_true_eq]
+        rcases lt_trichotomy x y with h | h | h
+        · simp [h, not_lt.2 h.le]
+        · simp [h]
+        · simp [h, not_lt.2 h.le]
+  refine ⟨hadd, hmax, ?_, ?_, ?_, ?_⟩
+  · simp [maxGo, nanNum_lt_none_right]
+  · simp [maxGo, nanNum_lt_none_left]
+  · rw [@groupSimilarity_eq_g _ nanNum _ _ _ _ (by simp) (by simp) (by simp) (by simp)]
+    simp [combineWith, funSimMax, gmax, maxGo, Combine.sum, sumGo, fmax, nanNum_add, nanNum_lt_none_right,
+      nanNum_isNaN, nanNum_ofNat, nanNum_div?]
+  · rw [@groupSimilarity_eq_g _ nanNum _ _ _ _ (by simp) (by simp) (by simp) (by simp)]
+    simp [combineWith, funSimMax, gmax, maxGo, Combine.sum, sumGo, fmax, nanNum_add, nanNum_lt_none_right,
+      nanNum_isNaN, nanNum_ofNat, nanNum_div?]
 
 /-! ## tie machinery: one-row matrices at the u16 limit -/
 
